@@ -177,6 +177,9 @@ pub fn exec_isolated_masked(run: &Run, limit: Duration, mask: Option<&str>) -> I
     }
 }
 static NEXT_TMP: AtomicU64 = AtomicU64::new(0);
+/// schema() / describe() / hash() / hash256() of a built parser failing with a foreign error:
+/// outside C04's statement, counted for the evidence file only
+pub static NODE_NOTES: AtomicU64 = AtomicU64::new(0);
 
 // ------------------------------------------------------------------------------------------
 // coordinator
@@ -692,6 +695,7 @@ pub fn check(cfg: &CheckCfg) -> i32 {
             "c04_located_diagnostics_checked": agg.stats.c04_locations_checked,
             "c04_emitted_modules_imported_by_node": node_modules_checked,
             "c04_distinct_emitted_modules_seen": agg.codes.len(),
+            "c04_other_entry_points_failing_with_foreign_errors_noted_not_alarmed": NODE_NOTES.load(Ordering::SeqCst),
             "c10_comparisons": agg.stats.c10_comparisons,
             "c10_variants_built": agg.stats.c10_variants_built,
             "runs_compared_across_os_processes": cross_compared,
@@ -814,6 +818,9 @@ pub fn node_leg(items: &[&CodeItem], label: &str) -> Result<Vec<(u64, String, se
         let line = text.lines().last().unwrap_or("");
         let v: serde_json::Value = serde_json::from_str(line).map_err(|e| format!("node leg produced no result ({}): {}", e, String::from_utf8_lossy(&o.stderr).chars().take(400).collect::<String>()))?;
         for r in v.as_array().cloned().unwrap_or_default() {
+            if let Some(n) = r.get("notes").and_then(|n| n.as_array()) {
+                NODE_NOTES.fetch_add(n.len() as u64, Ordering::SeqCst);
+            }
             if r["ok"].as_bool() != Some(true) {
                 let h = u64::from_str_radix(r["hash"].as_str().unwrap_or("0"), 16).unwrap_or(0);
                 out.push((h, r["class"].as_str().unwrap_or("module-check-failed").to_string(), r["detail"].clone()));
